@@ -31,6 +31,25 @@ func checkC19(w *World, r *Report) {
 		return
 	}
 	loopVarRule(w, r, "C19.loopvar", "cfeminter")
+	// the rate the minter reports in its per-block event is the rate of the period the state is in AFTER this block's
+	// mint: the inflation is computed behind the call that mints (which advances the period), never before it
+	if bb := w.Func("x/cfeminter.BeginBlocker"); bb != nil {
+		cg := w.CG()
+		mints := w.effectsBelow(bb, func(s *Site) bool { return calleeIs(s, "x/cfeminter/keeper.Keeper.Mint") }, 2)
+		infls := w.effectsBelow(bb, func(s *Site) bool { return calleeIs(s, "x/cfeminter/keeper.Keeper.GetCurrentInflation") }, 2)
+		_ = cg
+		ok := len(mints) > 0 && len(infls) > 0
+		for _, i := range infls {
+			for _, m := range mints {
+				if !instrDominates(m.Top(), i.Top()) {
+					ok = false
+				}
+			}
+		}
+		if len(infls) > 0 {
+			r.Check(ok, "C19.start", "block routine: the reported inflation is computed after the block's mint", w.Pos(infls[0].Top().Pos()), "the call that mints dominates the call that computes the rate", "the rate in the Mint event is computed before the mint advances the period: in the block in which a period ends the event reports the old period's rate (zero) while the next period's emission has started")
+		}
+	}
 	mci := w.Func("x/cfeminter/types.Minter.CalculateInflation")
 	gci := w.Func("x/cfeminter/keeper.Keeper.GetCurrentInflation")
 	if mci == nil || gci == nil {
